@@ -149,6 +149,7 @@ func runC06(e *Engine, r *Report) {
 				reqCmp("confirmations+1 >= quorum", ">=", anyV(), func(v ssa.Value) bool { return stripConv(v) == ssa.Value(qParam) }))
 		})
 		r.floor("GD-confirm", n, 1)
+		ruleConfirmPrefix(e, r)
 		// the lhs of that comparison counts distinct confirmed senders (+1 for self)
 		confirmedF := e.Field("internal/raft", "readStatus", "confirmed")
 		okCount := false
@@ -218,4 +219,5 @@ func runC06(e *Engine, r *Report) {
 
 	// ---- client side: release only when applied has reached the index
 	ruleReadRelease(e, r)
+	ruleReadBatchCopy(e, r)
 }
